@@ -42,6 +42,16 @@ def verify_unit_worker(qualname: str) -> dict:
     c = reg.contracts[qualname]
     out = {"unit": qualname, "file": c.file, "props": c.props, "obligations": [], "error": None}
     t0 = time.time()
+    import signal
+
+    class _UnitTimeout(Exception):
+        pass
+
+    def _alarm(signum, frame):
+        raise _UnitTimeout()
+
+    signal.signal(signal.SIGALRM, _alarm)
+    signal.alarm(int(os.environ.get("PYVC_UNIT_S", "420")))
     try:
         ex = Executor(reg, c)
         r = ex.verify()
@@ -132,10 +142,60 @@ def verify_unit_worker(qualname: str) -> dict:
                 vac.append(path or "entry")
         out["vacuous_paths"] = vac
         out["paths_checked"] = len(last)
+    except _UnitTimeout:
+        out["unsupported"] = f"VC generation / solving exceeded the per-unit budget of {os.environ.get('PYVC_UNIT_S', '420')} s"
     except Exception:
         out["error"] = traceback.format_exc()
+    finally:
+        signal.alarm(0)
     out["wall_s"] = round(time.time() - t0, 3)
     return out
+
+
+def _unit_proc(qualname, conn):
+    try:
+        conn.send(verify_unit_worker(qualname))
+    except BaseException:  # noqa
+        conn.send({"unit": qualname, "obligations": [], "error": traceback.format_exc()})
+    finally:
+        conn.close()
+
+
+def run_units(ctx, units, jobs):
+    """One process per unit, at most `jobs` at a time; a unit that exceeds the hard budget (stuck inside the
+    solver, where the soft alarm cannot fire) is killed and reported undecided."""
+    hard = int(os.environ.get("PYVC_UNIT_S", "420")) + 120
+    pending = list(units)
+    running = {}
+    results = {}
+    while pending or running:
+        while pending and len(running) < jobs:
+            u = pending.pop(0)
+            parent, child = ctx.Pipe(duplex=False)
+            p = ctx.Process(target=_unit_proc, args=(u, child))
+            p.start()
+            child.close()
+            running[u] = (p, parent, time.time())
+        for u, (p, parent, t0) in list(running.items()):
+            if parent.poll(0.05):
+                try:
+                    results[u] = parent.recv()
+                except EOFError:
+                    results[u] = {"unit": u, "obligations": [], "error": "worker died"}
+                p.join(5)
+                del running[u]
+            elif not p.is_alive():
+                results[u] = {"unit": u, "obligations": [], "error": f"worker exited with code {p.exitcode}"}
+                del running[u]
+            elif time.time() - t0 > hard:
+                p.kill()
+                p.join(5)
+                reg = load_specs()
+                c = reg.contracts[u]
+                results[u] = {"unit": u, "file": c.file, "props": c.props, "obligations": [], "error": None,
+                              "unsupported": f"killed after the hard per-unit budget of {hard} s", "sha256": None}
+                del running[u]
+    return [results[u] for u in units]
 
 
 def replay_model(reg, c, r, ob, model) -> dict:
@@ -203,8 +263,7 @@ def check_property(prop: str, tier: str, seed: int, write_baseline=False, only_u
         todo = [u for u in units if u not in done]
         if not todo:
             break
-        with ctx.Pool(min(jobs, len(todo))) as pool:
-            new_results = pool.map(verify_unit_worker, todo, chunksize=1)
+        new_results = run_units(ctx, todo, jobs)
         results.extend(new_results)
         done.update(todo)
         if only_units:
